@@ -124,7 +124,31 @@ MFrexp(t) ==
          IN IF n.m = 0 THEN Def(<<<<"n", 0>>, <<"n", 0>>>>)
             ELSE Def(<<Tok([m |-> n.m, e |-> -b]), <<"n", n.e + b>>>>)
 
-MLdexp(t, k) == IF IsFinite(t) THEN <<Tok([m |-> D(t).m, e |-> D(t).e + k])>> ELSE <<t>>
+(* the double nearest to m * 2^e (round half even): overflow gives an       *)
+(* infinity, below 2^-1074 the value is rounded to a multiple of 2^-1074.   *)
+(* |m| <= 2^20 (WideNum), so the mantissa itself never needs rounding.      *)
+Round64(x) ==
+    LET n == NormME(x.m, x.e)
+        b == BitLen(Abs(n.m))
+    IN IF n.m = 0 THEN <<"n", 0>>
+       ELSE IF n.e + b - 1 > 1023 THEN Inf(Sgn(n.m))
+       ELSE IF n.e >= -1074 THEN Tok(n)
+       ELSE LET sh == -1074 - n.e IN
+            IF sh > b THEN <<"n", 0>>
+            ELSE LET mag == Abs(n.m)
+                     den == 2 ^ sh
+                     q == mag \div den
+                     r == mag % den
+                     up == 2 * r > den \/ (2 * r = den /\ q % 2 = 1)
+                 IN Tok([m |-> Sgn(n.m) * (IF up THEN q + 1 ELSE q), e |-> -1074])
+Representable(t) == ~IsFinite(t) \/ Round64(D(t)) = t
+(* arguments of ldexp / frexp: any exponent a double can have *)
+WideNum(t) == CASE t[1] = "n" -> (t[2] >= -1048576 /\ t[2] <= 1048576)
+                [] t[1] = "q" -> (t[2] >= -1048576 /\ t[2] <= 1048576 /\ t[3] >= -2400 /\ t[3] <= 2400)
+                [] OTHER -> TRUE
+
+(* ldexp(x, k) = x * 2^k as a double *)
+MLdexp(t, k) == IF IsFinite(t) THEN <<Round64([m |-> D(t).m, e |-> D(t).e + k])>> ELSE <<t>>
 
 MFmod(s, t) ==
     CASE s[1] = "nan" \/ t[1] = "nan" -> <<NaN>>
